@@ -416,6 +416,11 @@ func resolveUnionBatch(ctx context.Context, sources []interface{}, typ *Union, s
 			if fragment.On != srcType {
 				continue
 			}
+			if ok, err := ShouldIncludeNode(fragment.Directives); err != nil {
+				return nil, err
+			} else if !ok {
+				continue
+			}
 			merged.Selections = append(merged.Selections, fragment.SelectionSet.Selections...)
 			merged.Fragments = append(merged.Fragments, fragment.SelectionSet.Fragments...)
 		}
